@@ -4,7 +4,12 @@
   S = the reference writer `Render.render style decor : Forest → List UInt8` (Spec/Render.lean) and the
   normal form `Render.norm` of a forest (a leaf without text has no value).
   M = `Parse.parseNode` (Impl/ParseConfig.lean) on an empty target, with the format description of the
-  style and all name flags set.
+  style and the name restriction words of the run (`roundtrip_flags`: any words that permit the names;
+  `roundtrip`: all flags set).
+
+  What the theorems do NOT cover (correspondence run only, stream "layouts" of vlib/props/c09.py): a last ELEMENT
+  line without line feed, blanks inside names and section headers, several elements on one line, single-quoted
+  values, other delimiter / comment / assignment characters than those of the four descriptions.
 -/
 import MptModel.Lemmas.FlatTree
 
